@@ -186,6 +186,11 @@ structure FsState where
       which returns without syncing while the dirty bytes are within the limit (defect E13);
       `true` = /repo since 2b9bef3 ("explicit Storage::fsyncdata always syncs the active blob") -/
   explicitFsyncUnconditional : Bool := false
+  /-- `false` = /repo before 0ede233: `restore_active_blob` makes the last closed blob active as it is,
+      with whatever un-synced bytes it collected while closed (deletion markers);
+      `true` = /repo since 0ede233 ("a restored active blob respects the dirty bytes limit at once"):
+      after `load_index`, `if too_many_dirty_bytes(blob.file_dirty_bytes()) { blob.fsyncdata() }` -/
+  restoreSyncsOverLimit : Bool := true
 
 /-- un-synced bytes of a blob file -/
 def FsState.dirtyOf (s : FsState) (id : Nat) : Nat :=
@@ -300,8 +305,19 @@ def closeActiveP : Prog :=
 
 def createActiveP : Prog := ensureActiveP
 
-/-- `restore_active_blob`: `load_index` only reads -/
-def restoreActiveP : Prog := applyP .restoreActive
+/-- does `restore_active_blob` succeed (no active blob, some closed blob) -/
+def restoreOk (st : Store) : Bool :=
+  match st.restoreActive with
+  | .ok _ => true
+  | .error _ => false
+
+/-- `restore_active_blob`: `load_index` only reads; since /repo 0ede233 the restored blob is fsynced when
+    its un-synced bytes are strictly above the limit (one `sync` publishing the current file size).
+    A failing call (`ActiveBlobExists`, `Uninitialized`) returns before any of this. -/
+def restoreActiveP : Prog :=
+  cond (fun s => restoreOk s.store)
+    (applyP .restoreActive ⨾ cond (fun s => s.restoreSyncsOverLimit) fsyncCheckP skip)
+    skip
 
 /-- `force_update_active_blob(pred)` -/
 def forceP (pred : BlobPred) : Prog :=
@@ -390,17 +406,18 @@ def emit (s : FsState) (op : FsOp) : FsState × List Event :=
     | _ => (s, [])
 
 /-- `Builder::build` + `init` on an empty directory (`init_new`) -/
-def init (allowDup : Bool) (limit klen : Nat) (unconditional : Bool) : FsState × List Event :=
+def init (allowDup : Bool) (limit klen : Nat) (unconditional restoreSyncs : Bool) : FsState × List Event :=
   newBlobP .createActive
     { store := { allowDup := allowDup }, limit := limit, klen := klen,
-      explicitFsyncUnconditional := unconditional }
+      explicitFsyncUnconditional := unconditional, restoreSyncsOverLimit := restoreSyncs }
 
 /-- run a list of operations, collecting the trace -/
 def runFrom (st : FsState × List Event) (ops : List FsOp) : FsState × List Event :=
   ops.foldl (fun acc op => let r := emit acc.1 op; (r.1, acc.2 ++ r.2)) st
 
-def run (allowDup : Bool) (limit klen : Nat) (unconditional : Bool) (ops : List FsOp) : FsState × List Event :=
-  runFrom (init allowDup limit klen unconditional) ops
+def run (allowDup : Bool) (limit klen : Nat) (unconditional restoreSyncs : Bool) (ops : List FsOp) :
+    FsState × List Event :=
+  runFrom (init allowDup limit klen unconditional restoreSyncs) ops
 
 /-! ### printing (the `trace` and `dirty` lines of the harness) -/
 
